@@ -45,10 +45,27 @@ struct Model {
 			return name;
 		return it->second + (sl == std::string::npos ? "" : name.substr(sl));
 	}
+	// lookup as a file system does it: runs of '/' count as one, a trailing '/' demands a directory
+	const std::string *node_kind(const std::string &path) const
+	{
+		std::string p;
+		for (char c : path)
+			if (!(c == '/' && !p.empty() && p.back() == '/'))
+				p += c;
+		bool want_dir = p.size() > 1 && p.back() == '/';
+		if (want_dir)
+			p.pop_back();
+		auto it = kind.find(p);
+		if (it == kind.end() || (want_dir && it->second != "dir"))
+			return nullptr;
+		canonical = p;
+		return &it->second;
+	}
+	mutable std::string canonical;
 	bool regular(const std::string &p) const
 	{
-		auto it = kind.find(p);
-		return it != kind.end() && it->second != "dir";
+		const std::string *k = node_kind(p);
+		return k && *k != "dir";
 	}
 	// returns true + full path when found
 	bool search(const std::vector<std::string> &dirs, const std::string &file, std::string *out) const
@@ -74,10 +91,17 @@ struct Model {
 	// what opening the resolved name gives: 0 ok, -1 cannot be opened
 	int open_result(const std::string &full) const
 	{
-		auto it = kind.find(full);
-		if (it == kind.end() || it->second != "file")
+		const std::string *k = node_kind(full);
+		if (!k || *k != "file")
 			return -1;
 		return 0;
+	}
+	long marker_of_path(const std::string &full) const
+	{
+		if (!node_kind(full))
+			return -999;
+		auto it = marker.find(canonical);
+		return it == marker.end() ? -999 : it->second;
 	}
 };
 
@@ -96,7 +120,8 @@ json generate(uint64_t seed, uint64_t idx, int tier)
 	// file namespace: every candidate location holds a regular file, a directory, an unreadable file, or nothing
 	json fs = json::array();
 	long mk = 100;
-	const char *roots[] = {"/a", "/b", "/c", "/home/alice", "/home/alice/cfg", "/home/bob", "/root"};
+	// "/a/b" and "/c/a" mirror the absolute names "/b/..." and "/a/..." below a search directory
+	const char *roots[] = {"/a", "/b", "/c", "/home/alice", "/home/alice/cfg", "/home/bob", "/root", "/a/b", "/c/a", "/a/nope"};
 	for (const char *d : roots)
 		if (r.chance(5, 6))
 			fs.push_back({{"path", d}, {"kind", "dir"}});
@@ -264,7 +289,7 @@ JudgeOut judge(const json &plan)
 						    nullptr});
 			else if (want_ok) {
 				long m = marker_of(o.dump);
-				long wm = M.marker.count(full) ? M.marker[full] : -999;
+				long wm = M.marker_of_path(full);
 				cur_marker = wm;
 				if (m != wm)
 					out.viol.push_back({std::string("resolve:wrongfile:") + (is_file ? "parse" : "include"), "\"" + esc(name) + "\" must resolve to " + full + " (marker " + std::to_string(wm) +
